@@ -1049,6 +1049,55 @@ def check_index_builders(acc: core.Acc, maxlen: int) -> None:
                          variant='index_builder', layout_class='n/a')
 
 
+def check_index_builder_histories(acc: core.Acc, maxlen: int) -> None:
+    """The same list OBJECT served by two builders one after the other (what two saves of one BSP, or a list moved to another
+    BSP, do), with an in-place edit between them that keeps the length: reverse, swap, item assignment, clear-and-refill,
+    pop-and-append.  The second builder answers for the list as it is now.  Both module functions, same key function object."""
+    import itertools as it
+    from srctools.binformat import find_or_extend, find_or_insert
+
+    def key(x):
+        return x
+
+    edits = {
+        'reverse': lambda l: l.reverse(),
+        'swap_ends': lambda l: l.__setitem__(slice(None), [l[-1]] + l[1:-1] + [l[0]]) if len(l) > 1 else None,
+        'assign_first': lambda l: l.__setitem__(0, 'z') if l else None,
+        'refill': lambda l: (lambda c: (l.clear(), l.extend(c[1:] + c[:1])))(list(l)),
+        'pop_append': lambda l: l.append(l.pop(0)) if l else None,
+        'sort': lambda l: l.sort(),
+    }
+    alpha = 'abc'
+    bases = [list(t) for n in range(1, maxlen + 1) for t in it.product(alpha, repeat=n)]
+    for base in bases:
+        for ename, edit in edits.items():
+            for builder in ('find_or_insert', 'find_or_extend'):
+                for q in alpha + 'z':
+                    acc.evaluations += 1
+                    lst = list(base)
+                    if builder == 'find_or_insert':
+                        find_or_insert(lst, key)(base[0])          # first builder, a query that does not grow the list
+                    else:
+                        find_or_extend(lst, key)([base[0]])
+                    if lst != base:
+                        continue        # (reported by check_index_builders)
+                    edit(lst)
+                    now = list(lst)
+                    if now != base:
+                        acc.nontrivial += 1
+                    if builder == 'find_or_insert':
+                        i = find_or_insert(lst, key)(q)
+                        good = lst[:len(now)] == now and 0 <= i < len(lst) and lst[i] == q and (q not in now or len(lst) == len(now))
+                    else:
+                        i = find_or_extend(lst, key)([q])
+                        good = lst[:len(now)] == now and 0 <= i < len(lst) and lst[i] == q
+                    if not good:
+                        acc.fail('index_builder_wrong', {'index_builder': builder, 'base': base, 'edit_between': ename, 'queries': [[q]]},
+                                 f'{builder} on one list object: built once for {base}, list then edited in place ({ename}) to {now}; a second '
+                                 f'builder answered {q!r} -> {i}, list is now {lst}', lump='index_builder', field=builder,
+                                 variant='index_builder_history', layout_class='n/a')
+
+
 def enum_cases(fam: Family, depth: int):
     """Yield every case of one family once."""
     usable, reps = family_layouts(fam)
@@ -1286,6 +1335,7 @@ def shard(spec) -> core.Acc:
                 acc.sample({kk: vv for kk, vv in case.items() if kk != 'world'}, 1)
     elif kind == 'index':
         check_index_builders(acc, spec[1])
+        check_index_builder_histories(acc, min(spec[1], 3))
         acc.count('cases_index_builders')
     elif kind == 'rle':
         _, depth, k, nshards = spec
@@ -1349,7 +1399,10 @@ def run(ctx: core.Ctx) -> None:
 def replay(case: dict) -> list:
     acc = core.Acc()
     try:
-        if 'index_builder' in case:
+        if 'edit_between' in case:
+            check_index_builder_histories(acc, 3)
+            return [f for f in acc.all_failures() if f.case == case]
+        elif 'index_builder' in case:
             check_index_builders(acc, 3)
         elif 'rle' in case or 'rle_spec' in case:
             check_rle(acc, _rle_from_case(case))
